@@ -295,7 +295,8 @@ def writeinprofile(rng):
     w = rng.randint(1, 3)
     top = rng.randint(9, 12)
     tallies = [top]
-    if rng.random() < 0.35:
+    dominant = rng.random() < 0.5
+    if dominant:
         tallies += [rng.randint(1, 2) for _ in decl[1:]]          # one dominant candidate, everybody else a certain loser
     else:
         for _ in decl[1:]:
@@ -312,7 +313,7 @@ def writeinprofile(rng):
     rng.shuffle(lines)
     tie = list(range(1, nc + 1))
     rng.shuffle(tie)
-    return dict(nc=nc, seats=rng.choice([1, 2, 2, 3]), lines=lines, tie=tie, withdrawn=[], undeclared=[W], eqlines=[])
+    return dict(nc=nc, seats=rng.choice([2, 3]) if dominant else rng.choice([1, 2, 2, 3]), lines=lines, tie=tie, withdrawn=[], undeclared=[W], eqlines=[])
 
 
 def surplustieprofile(rng):
